@@ -206,6 +206,68 @@ REF_PROPS = {
 }
 
 
+def stage_optable(out: core.Outcome, groups):
+    """Cells of spec/OpTable.tla (exact values and VJPs from Ref.tla's dual numbers) replayed on the implementation."""
+    import shutil
+    import tempfile
+    from concurrent.futures import ThreadPoolExecutor
+
+    spec = os.path.join(tlc.SPEC, "OpTable.tla")
+    scratch = tempfile.mkdtemp(prefix="verif-op-")
+    res = {}
+
+    def work(g):
+        cfg = os.path.join(scratch, g + ".cfg")
+        with open(cfg, "w") as f:
+            f.write(f'SPECIFICATION Spec\nCONSTANTS\n  Group = "{g}"\nINVARIANT Emit\nCHECK_DEADLOCK FALSE\n')
+        res[g] = tlc.run_tlc(spec, cfg, workers=1, timeout=3000)
+
+    try:
+        with ThreadPoolExecutor(max_workers=8) as ex:
+            list(ex.map(work, groups))
+        per = {}
+        for g in groups:
+            rc, o, wall = res[g]
+            st = tlc.parse_stats(o)
+            behs, bad = replay.parse_behaviours(o)
+            if rc != 0 or st is None or bad or len(behs) != st["distinct"]:
+                out.machinery(f"OpTable.tla ({g}) failed rc={rc} bad={bad}: {o[-1200:]}")
+                continue
+            out.coverage["states"] = out.coverage.get("states", 0) + st["distinct"]
+            out.coverage["transitions"] = out.coverage.get("transitions", 0) + st["generated"]
+            out.judged += len(behs)
+            nb = 0
+            for b in behs:
+                r = replay.compare(b)
+                if r is None:
+                    continue
+                line, field, h, pred, obs = r
+                if line == "out_of_model":
+                    out.out_of_model += 1
+                    continue
+                if line == "np_model_mismatch":
+                    out.model_mismatches.append({"clause": "exc", "line": field, "program": [e["stmt"] for e in b]})
+                    continue
+                kfs = set(b[line - 1]["proj"]["kf"]) if b[line - 1]["proj"] else set()
+                hit = next((k for k in sorted(kfs) if out.open_kf(k)), None)
+                if hit:
+                    out.kf_hit(hit)
+                    continue
+                nb += 1
+                out.violation({"kind": "optable", "group": g, "program": [e["stmt"] for e in b], "failing_line": line, "field": field,
+                               "handle": h, "predicted": pred, "observed": obs},
+                              f"operation table ({g}): statement {line}, field '{field}' of handle {h}: exact value/VJP "
+                              f"{json.dumps(pred)[:160]} but MyGrad gives {json.dumps(obs)[:160]}")
+            per[g] = {"cells": len(behs), "disagree": nb}
+            out.coverage["behaviours_replayed"] = out.coverage.get("behaviours_replayed", 0) + len(behs)
+            out.coverage["behaviours_agreeing"] = out.coverage.get("behaviours_agreeing", 0) + len(behs) - nb
+            out.coverage.setdefault("replay_stages", []).append(
+                {"spec": "OpTable.tla", "group": g, "mode": "exhaustive (every cell)", "behaviours": len(behs), "agree": len(behs) - nb})
+        return per
+    finally:
+        shutil.rmtree(scratch, ignore_errors=True)
+
+
 def check_ref_property(prop: str, tier: str, seed: int) -> int:
     cfg = REF_PROPS[prop]
     out = core.Outcome(prop, tier, seed, "model_checking")
@@ -229,6 +291,10 @@ def check_ref_property(prop: str, tier: str, seed: int) -> int:
             out.coverage["construct_table_cells"] = {"executed": total, "agreeing": agree, "per_table": per}
         if prop == "C13":
             stage_memguard_failures(out)
+        if prop == "C05":
+            # exact gradients through in-place updates: the in-place cells of the operation table (view chains on C- and
+            # Fortran-ordered bases, every index kind of setitem, where=/out= masks)
+            stage_optable(out, ["inplace", "setitem", "whereout"])
     except tlc.MachineryError as e:
         out.machinery(str(e)[:3000])
     out.assumptions += [
@@ -822,7 +888,7 @@ def check_C03(tier: str, seed: int) -> int:
 
 # ----------------------------------------------------------------------------- C02: every operation's VJP
 OPTABLE_GROUPS = ["binary", "unary", "reduce", "matmul", "getitem", "setitem", "whereout", "move",
-                  "activation", "cumulative", "sequence", "einsum", "conv", "maxpool", "loss"]
+                  "activation", "cumulative", "sequence", "einsum", "conv", "maxpool", "loss", "inplace"]
 
 
 def _uncovered_operations(seen_ops: set, kernel_rows: set):
